@@ -10,6 +10,7 @@ import (
 	"time"
 
 	"github.com/gotid/god/internal/zsim"
+	"github.com/gotid/god/lib/breaker"
 	"github.com/gotid/god/lib/logx"
 	"github.com/gotid/god/lib/timex"
 	"google.golang.org/grpc"
@@ -49,6 +50,7 @@ func c02Chain(final grpc.UnaryHandler, info *grpc.UnaryServerInfo, ints ...grpc.
 
 func c02RpcRun(r *zsim.Run) {
 	timex.ZsimReset()
+	breaker.ZsimReset()
 	r.RandMode = 2 // the method breaker never rejects
 	o, f := r.Ops, r.Fault
 	timeout := zsim.Pick(o, time.Second, 50*time.Millisecond)
@@ -103,7 +105,8 @@ func c02RpcRun(r *zsim.Run) {
 				}()
 				t1 := r.Now()
 				cancel()
-				r.Logf("c%d call d=%v outcome=%d cancelAt=%v -> resp=%v err=%v panic=%v in %v", c, d, outcome, cancelAt, resp, err, panicked, t1-t0)
+				// (the Internal error of a panic carries a stack trace with goroutine ids: log the code only)
+				r.Logf("c%d call d=%v outcome=%d cancelAt=%v -> resp=%v code=%v panic=%v in %v", c, d, outcome, cancelAt, resp, status.Code(err), panicked != nil, t1-t0)
 				if panicked != nil {
 					r.Failf("panic-escapes-chain", "a handler panic escaped the interceptor chain: %v", panicked)
 					return
@@ -129,7 +132,7 @@ func c02RpcRun(r *zsim.Run) {
 				case inTime && outcome == 2:
 					r.NonTrivial()
 					if code != codes.Internal {
-						r.Failf("panic-not-internal", "the handler panicked but the caller got (%v, %v), want codes.Internal", resp, err)
+						r.Failf("panic-not-internal", "the handler panicked but the caller got (%v, code %v), want codes.Internal", resp, code)
 						return
 					}
 				default:
